@@ -69,6 +69,7 @@ TEXT_STRINGS = ['foo', 'http://emmet.io', 'info@emmet.io', 'foo\nbar', '<div>foo
 PEER_STYLES = ['identity', 'textmate', 'marker', 'escape', 'double', 'drop', 'upper', 'mixed']
 
 PROBE_TEXT = ['ul>li*', 'ul>.item$*', 'img[src="$#"]*', 'div>p', 'a', 'p{$#}*', '(li>a)*', 'div>ul>li*>a']
+PROBE_GENERIC = ['li.item$@-', 'h$@3+p.c$$', 'ul>li.i$*3>a', '!', 'a+img', 'p{a ${1:b}}+q[t]', 'div>p*2>span', 'label>input']
 PROBE_BEM = ['div.b>div.-e_m', '.b>.-e>.--x', '.blk>.-a+.-b_m', 'ul.nav>.-item*2>a.-link', '.-e', '.-e_m', 'ul>.-item*2', 'p._m']
 
 
@@ -275,6 +276,8 @@ class Gen:
             if reveal and spec.get('text') and maybe(rng, 0.8):
                 abbr = pick(rng, PROBE_TEXT)
                 tags.append('text-probe')
+            elif reveal and not feat['bem'] and maybe(rng, 0.5):
+                abbr = pick(rng, PROBE_GENERIC)
             elif (reveal or r < 0.25) and feat['bem']:
                 abbr = pick(rng, PROBE_BEM[4:] if (spec.get('context') and maybe(rng, 0.7)) else PROBE_BEM)
             elif r < 0.1 and spec.get('syntax') in ga.SYNTAX_PROBES:
